@@ -1,0 +1,239 @@
+//go:build verif
+
+package quicwire
+
+import (
+	. "github.com/cloudflare/pat-go/internal/vspec"
+)
+
+// Specification functions: RFC 9000 section 16 written with arithmetic,
+// independently of the shifts and masks in wire.go.
+
+//@ spec
+func specVarintLen(b0 byte) int {
+	switch b0 / 64 {
+	case 0:
+		return 1
+	case 1:
+		return 2
+	case 2:
+		return 4
+	}
+	return 8
+}
+
+//@ spec
+func specSizeVarint(v uint64) int {
+	switch {
+	case v < 64:
+		return 1
+	case v < 16384:
+		return 2
+	case v < 1073741824:
+		return 4
+	}
+	return 8
+}
+
+// specVarintValue is the value of the varint at the head of b (len(b) >= specVarintLen(b[0])).
+//
+//@ spec
+func specVarintValue(b string) uint64 {
+	v := uint64(b[0] % 64)
+	switch specVarintLen(b[0]) {
+	case 2:
+		v = v*256 + uint64(b[1])
+	case 4:
+		v = ((v*256+uint64(b[1]))*256+uint64(b[2]))*256 + uint64(b[3])
+	case 8:
+		v = ((((((v*256+uint64(b[1]))*256+uint64(b[2]))*256+uint64(b[3]))*256+uint64(b[4]))*256+uint64(b[5]))*256+uint64(b[6]))*256 + uint64(b[7])
+	}
+	return v
+}
+
+// specVarintOK: a complete varint is available at the head of b.
+//
+//@ spec
+func specVarintOK(b string) bool {
+	return len(b) >= 1 && len(b) >= specVarintLen(b[0])
+}
+
+//@ func ConsumeVarint(b []byte) (v uint64, n int)
+//@ props C03 C19 C04 C01 C05
+//@ ensures (n == -1) == !specVarintOK(string(b))
+//@ ensures n != -1 ==> n == specVarintLen(b[0]) && v == specVarintValue(string(b)) && v <= MaxVarint
+//@ ensures n == -1 ==> v == 0
+//@ assigns none
+//@ alloc 0
+//@ pure
+//@ end
+
+//@ func ConsumeVarintInt64(b []byte) (v int64, n int)
+//@ props C03 C19
+//@ ensures (n == -1) == !specVarintOK(string(b))
+//@ ensures n != -1 ==> n == specVarintLen(b[0]) && v >= 0 && uint64(v) == specVarintValue(string(b))
+//@ assigns none
+//@ alloc 0
+//@ pure
+//@ end
+
+//@ func AppendVarint(b []byte, v uint64) (res []byte)
+//@ props C19 C04 C01 C05
+//@ requires v <= MaxVarint
+//@ ensures len(res) == len(b)+specSizeVarint(v)
+//@ ensures string(res[:len(b)]) == old(string(b))
+//@ ensures specVarintLen(res[len(b)]) == specSizeVarint(v)
+//@ ensures specVarintValue(string(res[len(b):])) == v
+//@ ensures fresh(res) || Extends(res, b)
+//@ assigns spare(b)
+//@ end
+
+//@ func SizeVarint(v uint64) (n int)
+//@ props C19
+//@ requires v <= MaxVarint
+//@ ensures n == specSizeVarint(v)
+//@ assigns none
+//@ pure
+//@ end
+
+//@ func ConsumeUint32(b []byte) (v uint32, n int)
+//@ props C03 C19
+//@ ensures (n == -1) == (len(b) < 4)
+//@ ensures n != -1 ==> n == 4 && v == ((uint32(b[0])*256+uint32(b[1]))*256+uint32(b[2]))*256+uint32(b[3])
+//@ assigns none
+//@ alloc 0
+//@ pure
+//@ end
+
+//@ func ConsumeUint64(b []byte) (v uint64, n int)
+//@ props C03 C19
+//@ ensures (n == -1) == (len(b) < 8)
+//@ ensures n != -1 ==> n == 8 && v == ((((((uint64(b[0])*256+uint64(b[1]))*256+uint64(b[2]))*256+uint64(b[3]))*256+uint64(b[4]))*256+uint64(b[5]))*256+uint64(b[6]))*256+uint64(b[7])
+//@ assigns none
+//@ alloc 0
+//@ pure
+//@ end
+
+//@ func ConsumeUint8Bytes(b []byte) (res []byte, n int)
+//@ props C03 C19
+//@ ensures (n == -1) == (len(b) < 1 || int(b[0]) > len(b)-1)
+//@ ensures n != -1 ==> n == 1+int(b[0]) && sameslice(res, b[1:n])
+//@ ensures n == -1 ==> res == nil
+//@ assigns none
+//@ alloc 0
+//@ pure
+//@ end
+
+//@ func AppendUint8Bytes(b []byte, v []byte) (res []byte)
+//@ props C19
+//@ requires len(v) <= 255
+//@ requires SpareDisjoint(b, v)
+//@ ensures len(res) == len(b)+1+len(v)
+//@ ensures string(res[:len(b)]) == old(string(b))
+//@ ensures res[len(b)] == byte(len(v))
+//@ ensures string(res[len(b)+1:]) == old(string(v))
+//@ ensures fresh(res) || Extends(res, b)
+//@ assigns spare(b)
+//@ end
+
+//@ func ConsumeVarintBytes(b []byte) (res []byte, n int)
+//@ props C03 C19
+//@ ensures (n == -1) == (!specVarintOK(string(b)) || specVarintValue(string(b)) > uint64(len(b)-specVarintLen(b[0])))
+//@ ensures n != -1 ==> n == specVarintLen(b[0])+int(specVarintValue(string(b))) && sameslice(res, b[specVarintLen(b[0]):n])
+//@ ensures n == -1 ==> res == nil
+//@ assigns none
+//@ alloc 0
+//@ pure
+//@ end
+
+//@ func AppendVarintBytes(b []byte, v []byte) (res []byte)
+//@ props C19
+//@ requires SpareDisjoint(b, v)
+//@ ensures len(res) == len(b)+specSizeVarint(uint64(len(v)))+len(v)
+//@ ensures string(res[:len(b)]) == old(string(b))
+//@ ensures specVarintValue(string(res[len(b):])) == uint64(len(v)) && specVarintLen(res[len(b)]) == specSizeVarint(uint64(len(v)))
+//@ ensures string(res[len(b)+specSizeVarint(uint64(len(v))):]) == old(string(v))
+//@ ensures fresh(res) || Extends(res, b)
+//@ assigns spare(b)
+//@ end
+
+// ---------------------------------------------------------------------------
+// Property C19 as lemmas over the contracts above.
+
+// Every value up to 2^62-1 round-trips; the decoder consumes exactly the
+// shortest-form length the size function reports; the prefix is untouched.
+//
+//@ lemma props C19
+func lemmaVarintRoundTrip(b []byte, v uint64) {
+	Vassume(v <= MaxVarint)
+	pre := string(b)
+	r := AppendVarint(b, v)
+	w, n := ConsumeVarint(r[len(b):])
+	Vassert(w == v && n == SizeVarint(v) && len(r) == len(b)+n)
+	Vassert(string(r[:len(b)]) == pre)
+}
+
+// The encoder emits the shortest of the four forms.
+//
+//@ lemma props C19
+func lemmaVarintShortest(v uint64) {
+	Vassume(v <= MaxVarint)
+	r := AppendVarint(nil, v)
+	n := len(r)
+	Vassert(n == 1 || n == 2 || n == 4 || n == 8)
+	Vassert(n == 1 == (v <= 63))
+	Vassert(n <= 2 == (v <= 16383))
+	Vassert(n <= 4 == (v <= 1073741823))
+	Vassert(SizeVarint(v) == n)
+}
+
+// For every byte string the decoder reads only the announced number of bytes
+// and fails exactly when fewer are available: the result depends on the first
+// specVarintLen bytes only.
+//
+//@ lemma props C19
+func lemmaVarintReadsAnnounced(a, b []byte) {
+	Vassume(len(a) >= 1 && len(b) >= 1)
+	k := specVarintLen(a[0])
+	Vassume(len(a) >= k && len(b) >= k && string(a[:k]) == string(b[:k]))
+	va, na := ConsumeVarint(a)
+	vb, nb := ConsumeVarint(b)
+	Vassert(na == k && nb == k && va == vb)
+	_, ns := ConsumeVarint(a[:k-1])
+	Vassert(ns == -1)
+}
+
+// Length-prefixed byte strings round-trip (varint prefix).
+//
+//@ lemma props C19
+func lemmaVarintBytesRoundTrip(b, v []byte) {
+	Vassume(SpareDisjoint(b, v))
+	pre := string(v)
+	r := AppendVarintBytes(b, v)
+	got, n := ConsumeVarintBytes(r[len(b):])
+	Vassert(n == len(r)-len(b))
+	Vassert(string(got) == pre)
+}
+
+// Length-prefixed byte strings round-trip (one-byte prefix).
+//
+//@ lemma props C19
+func lemmaUint8BytesRoundTrip(b, v []byte) {
+	Vassume(len(v) <= 255 && SpareDisjoint(b, v))
+	pre := string(v)
+	r := AppendUint8Bytes(b, v)
+	got, n := ConsumeUint8Bytes(r[len(b):])
+	Vassert(n == len(r)-len(b))
+	Vassert(string(got) == pre)
+}
+
+// A declared length larger than the remaining input - up to the largest
+// representable - is an error.
+//
+//@ lemma props C19
+func lemmaDeclaredLengthTooLarge(in []byte) {
+	v, n := ConsumeVarint(in)
+	Vassume(n != -1 && v > uint64(len(in)-n))
+	res, m := ConsumeVarintBytes(in)
+	Vassert(res == nil && m == -1)
+}
